@@ -392,4 +392,271 @@ theorem forAddress_drop_other (F : Facts) (s : St) (k : Nat) (c : Conn) (hk : fo
     exact hd (by rw [← hda, this])
   simpa using this
 
+/-! ## the invariant of the world, and the composite statements -/
+
+/-- what the stack establishes: `remoteDevices` is a map, distinct connections announce distinct device addresses
+    (assumption), every registry entry was granted to a connected device for one of its entities -/
+structure Inv (s : St) : Prop where
+  isMap : IsMap s.conns
+  devInj : DevInj s.conns
+  subsRef : ∀ e ∈ s.subs, ∃ c ∈ s.conns, c.ski = e.cl.ski ∧ c.dev = e.cl.dev ∧ e.cl.ent ∈ c.ents
+  bindsRef : ∀ e ∈ s.binds, ∃ c ∈ s.conns, c.ski = e.cl.ski ∧ c.dev = e.cl.dev ∧ e.cl.ent ∈ c.ents
+
+theorem coherent_of_refs (conns : List Conn) (hm : IsMap conns) (hd : DevInj conns) (es : List Entry)
+    (href : ∀ e ∈ es, ∃ c ∈ conns, c.ski = e.cl.ski ∧ c.dev = e.cl.dev ∧ e.cl.ent ∈ c.ents) : Coherent conns es := by
+  constructor
+  · intro e he c hc
+    obtain ⟨c', hc', hs, hdv, _⟩ := href e he
+    constructor
+    · intro h
+      have : c' = c := hm c' hc' c hc (hs.trans h)
+      rw [← hdv, this]
+    · intro h
+      have := hd c' hc' c hc (hdv.trans h)
+      rw [← hs, this]
+  · intro e he c hc h
+    obtain ⟨c', hc', hs, _, hk⟩ := href e he
+    have : c' = c := hm c' hc' c hc (hs.trans h)
+    rw [← this]; exact hk
+
+theorem Inv.subsCoherent {s : St} (h : Inv s) : Coherent s.conns s.subs := coherent_of_refs _ h.isMap h.devInj _ h.subsRef
+theorem Inv.bindsCoherent {s : St} (h : Inv s) : Coherent s.conns s.binds := coherent_of_refs _ h.isMap h.devInj _ h.bindsRef
+
+theorem book_filter_dev (c : Cmp) (hd : c.dev = true) (he : c.ent = false) (bs : List Book) (dev : Nat) :
+    bs.filter (fun b => !b.hit c dev []) = bs.filter (fun b => b.dev != dev) := by
+  apply filter_congr_mem; intro b _; simp [Book.hit, hd, he, bne]
+
+theorem book_filter_ent (c : Cmp) (hd : c.dev = true) (he : c.ent = true) (bs : List Book) (dev : Nat) (ent : List Nat) :
+    bs.filter (fun b => !b.hit c dev ent) = bs.filter (fun b => !(b.dev == dev && b.ent == ent)) := by
+  apply filter_congr_mem; intro b _; simp [Book.hit, hd, he]
+
+/-- RemoveRemoteDeviceConnection, all components: ALL AND ONLY what refers to the removed device disappears. -/
+theorem drop_exact (F : Facts) (hF : F.ok = true) (s : St) (hs : Inv s) (k : Nat) (c : Conn) (hk : forSki s k = some c) :
+    (drop F s k).1.subs = s.subs.filter (fun e => e.cl.ski != k) ∧
+    (drop F s k).1.binds = s.binds.filter (fun e => e.cl.ski != k) ∧
+    (drop F s k).1.csubs = s.csubs.filter (fun b => b.dev != c.dev) ∧
+    (drop F s k).1.cbinds = s.cbinds.filter (fun b => b.dev != c.dev) ∧
+    (drop F s k).1.conns = s.conns.filter (fun x => x.ski != k) := by
+  obtain ⟨hmem, hski⟩ := forSki_some hk
+  simp only [Facts.ok, Bool.and_eq_true, Bool.not_eq_true'] at hF
+  obtain ⟨⟨⟨h1, h2⟩, h3, h3'⟩, _⟩ := hF
+  unfold drop
+  simp only [hk]
+  refine ⟨?_, ?_, ?_, ?_, trivial⟩
+  · rw [passes_exact F.subs h1 s.conns s.subs hs.subsCoherent c hmem, hski]
+  · rw [passes_exact F.binds h2 s.conns s.binds hs.bindsCoherent c hmem, hski]
+  · exact book_filter_dev F.cacheDev h3 h3' _ _
+  · exact book_filter_dev F.cacheDev h3 h3' _ _
+
+/-- the events of RemoveRemoteDeviceConnection -/
+def dropEvents (s : St) (k : Nat) : List Ev :=
+  (s.subs.filter (fun e => e.cl.ski == k)).map .subRemoved ++ (s.binds.filter (fun e => e.cl.ski == k)).map .bindRemoved ++ [.deviceRemoved k]
+
+/-- … a removal event for each registry entry of that device — one each, for no other entry — and one for the device. -/
+theorem drop_events (F : Facts) (hF : F.ok = true) (s : St) (hs : Inv s) (k : Nat) (c : Conn) (hk : forSki s k = some c) :
+    (drop F s k).2.Perm (dropEvents s k) := by
+  obtain ⟨hmem, hski⟩ := forSki_some hk
+  simp only [Facts.ok, Bool.and_eq_true] at hF
+  obtain ⟨⟨⟨h1, h2⟩, _⟩, _⟩ := hF
+  unfold drop dropEvents
+  simp only [hk]
+  have e1 := goneAll_exact F.subs h1 s.conns s.subs hs.subsCoherent c hmem
+  have e2 := goneAll_exact F.binds h2 s.conns s.binds hs.bindsCoherent c hmem
+  rw [hski] at e1 e2
+  exact List.Perm.append (List.Perm.append (e1.map _) (e2.map _)) (List.Perm.refl _)
+
+/-- the removal of an entity of a connected device, all components -/
+theorem dropEntity_exact (F : Facts) (hF : F.ok = true) (s : St) (hs : Inv s) (k : Nat) (c : Conn) (hk : forSki s k = some c)
+    (ent : List Nat) (h0 : ent ≠ [0]) (hent : c.ents.contains ent = true) :
+    (dropEntity F s k ent).1.subs = s.subs.filter (fun e => !(e.cl.ski == k && e.cl.ent == ent)) ∧
+    (dropEntity F s k ent).1.binds = s.binds.filter (fun e => !(e.cl.ski == k && e.cl.ent == ent)) ∧
+    (dropEntity F s k ent).1.csubs = s.csubs.filter (fun b => !(b.dev == c.dev && b.ent == ent)) ∧
+    (dropEntity F s k ent).1.cbinds = s.cbinds.filter (fun b => !(b.dev == c.dev && b.ent == ent)) ∧
+    (dropEntity F s k ent).2 = [Ev.entityRemoved k ent] ++ (s.subs.filter (fun e => e.cl.ski == k && e.cl.ent == ent)).map .subRemoved ++
+      (s.binds.filter (fun e => e.cl.ski == k && e.cl.ent == ent)).map .bindRemoved := by
+  obtain ⟨hmem, hski⟩ := forSki_some hk
+  simp only [Facts.ok, Bool.and_eq_true] at hF
+  obtain ⟨⟨⟨h1, h2⟩, _⟩, h4, h4'⟩ := hF
+  have h0' : (ent == [0]) = false := by simpa using h0
+  have p1 := pass_exact F.subs h1 s.conns s.subs hs.subsCoherent c hmem ent
+  have p2 := pass_exact F.binds h2 s.conns s.binds hs.bindsCoherent c hmem ent
+  rw [hski] at p1 p2
+  unfold dropEntity
+  simp only [hk, h0', hent, Bool.not_true, Bool.or_self, Bool.false_eq_true, if_false]
+  refine ⟨p1.1, p2.1, book_filter_ent F.cacheEnt h4 h4' _ _ _, book_filter_ent F.cacheEnt h4 h4' _ _ _, ?_⟩
+  rw [p1.2, p2.2]
+
+/-- [0] is kept, an unknown entity or connection changes nothing and publishes nothing -/
+theorem dropEntity_zero (F : Facts) (s : St) (k : Nat) : dropEntity F s k [0] = (s, []) := by
+  unfold dropEntity; cases forSki s k <;> simp
+
+/-! ## the invariant holds along every history -/
+
+/-- the assumption on histories: a connection announces a device address no connected device has -/
+def okOp (s : St) : Op → Bool
+  | .connect c => (forAddress s c.dev).isNone
+  | _ => true
+
+def okRun (F : Facts) : St → List Op → Bool
+  | _, [] => true
+  | s, op :: ops => okOp s op && okRun F (step F s op) ops
+
+theorem dropConnEnt_ski (k : Nat) (ent : List Nat) (c : Conn) : (dropConnEnt k ent c).ski = c.ski := by
+  unfold dropConnEnt; split <;> rfl
+theorem dropConnEnt_dev (k : Nat) (ent : List Nat) (c : Conn) : (dropConnEnt k ent c).dev = c.dev := by
+  unfold dropConnEnt; split <;> rfl
+
+theorem inv_connect (s : St) (h : Inv s) (c : Conn) (hok : (forAddress s c.dev).isNone = true) : Inv (connect s c) := by
+  unfold connect
+  by_cases hk : (forSki s c.ski).isSome = true
+  · simp [hk]; exact h
+  · simp only [hk, Bool.false_eq_true, if_false]
+    have hk' : ∀ x ∈ s.conns, x.ski ≠ c.ski := by
+      have : forSki s c.ski = none := by simpa using hk
+      unfold forSki at this
+      intro x hx; simpa using (List.find?_eq_none.1 this) x hx
+    have hd' : ∀ x ∈ s.conns, x.dev ≠ c.dev := by
+      have : forAddress s c.dev = none := by simpa using hok
+      unfold forAddress at this
+      intro x hx; simpa using (List.find?_eq_none.1 this) x hx
+    refine ⟨?_, ?_, ?_, ?_⟩
+    · intro a ha b hb hab
+      simp only [List.mem_append, List.mem_singleton] at ha hb
+      rcases ha with ha | rfl <;> rcases hb with hb | rfl
+      · exact h.isMap a ha b hb hab
+      · exact absurd hab (hk' a ha)
+      · exact absurd hab.symm (hk' b hb)
+      · rfl
+    · intro a ha b hb hab
+      simp only [List.mem_append, List.mem_singleton] at ha hb
+      rcases ha with ha | rfl <;> rcases hb with hb | rfl
+      · exact h.devInj a ha b hb hab
+      · exact absurd hab (hd' a ha)
+      · exact absurd hab.symm (hd' b hb)
+      · rfl
+    · intro e he
+      obtain ⟨c', hc', r⟩ := h.subsRef e he
+      exact ⟨c', by simp [hc'], r⟩
+    · intro e he
+      obtain ⟨c', hc', r⟩ := h.bindsRef e he
+      exact ⟨c', by simp [hc'], r⟩
+
+theorem inv_addEntry (s : St) (h : Inv s) (bind : Bool) (id k : Nat) (ent : List Nat) (cf : Nat) (se : List Nat) (sf : Nat) :
+    Inv (addEntry s bind id k ent cf se sf) := by
+  unfold addEntry
+  cases hk : forSki s k with
+  | none => exact h
+  | some c =>
+    obtain ⟨hmem, hski⟩ := forSki_some hk
+    by_cases hent : c.ents.contains ent = true
+    · have hin : ent ∈ c.ents := by simpa using hent
+      simp only [hent, Bool.not_true, Bool.false_eq_true, if_false]
+      cases bind
+      · simp only [Bool.false_eq_true, if_false]
+        refine ⟨h.isMap, h.devInj, ?_, h.bindsRef⟩
+        intro e he
+        simp only [List.mem_append, List.mem_singleton] at he
+        rcases he with he | rfl
+        · exact h.subsRef e he
+        · exact ⟨c, hmem, hski, rfl, hin⟩
+      · simp only [if_true]
+        refine ⟨h.isMap, h.devInj, h.subsRef, ?_⟩
+        intro e he
+        simp only [List.mem_append, List.mem_singleton] at he
+        rcases he with he | rfl
+        · exact h.bindsRef e he
+        · exact ⟨c, hmem, hski, rfl, hin⟩
+    · have : c.ents.contains ent = false := by simpa using hent
+      simp only [this, Bool.not_false, if_true]; exact h
+
+theorem inv_addBook (s : St) (h : Inv s) (bind : Bool) (b : Book) : Inv (addBook s bind b) := by
+  unfold addBook
+  cases forAddress s b.dev with
+  | none => exact h
+  | some _ => cases bind <;> exact ⟨h.isMap, h.devInj, h.subsRef, h.bindsRef⟩
+
+theorem inv_drop (F : Facts) (hF : F.ok = true) (s : St) (h : Inv s) (k : Nat) : Inv (drop F s k).1 := by
+  cases hk : forSki s k with
+  | none => unfold drop; simp only [hk]; exact h
+  | some c =>
+    have ex := drop_exact F hF s h k c hk
+    have keep : ∀ es : List Entry, (∀ e ∈ es, ∃ c ∈ s.conns, c.ski = e.cl.ski ∧ c.dev = e.cl.dev ∧ e.cl.ent ∈ c.ents) →
+        ∀ e ∈ es.filter (fun e => e.cl.ski != k), ∃ c ∈ s.conns.filter (fun x => x.ski != k), c.ski = e.cl.ski ∧ c.dev = e.cl.dev ∧ e.cl.ent ∈ c.ents := by
+      intro es href e he
+      rw [List.mem_filter] at he
+      obtain ⟨c', hc', hs, r⟩ := href e he.1
+      refine ⟨c', ?_, hs, r⟩
+      rw [List.mem_filter]; exact ⟨hc', by rw [hs]; exact he.2⟩
+    refine ⟨?_, ?_, ?_, ?_⟩
+    · rw [ex.2.2.2.2]; intro a ha b hb; exact h.isMap a (List.mem_filter.1 ha).1 b (List.mem_filter.1 hb).1
+    · rw [ex.2.2.2.2]; intro a ha b hb; exact h.devInj a (List.mem_filter.1 ha).1 b (List.mem_filter.1 hb).1
+    · rw [ex.1, ex.2.2.2.2]; exact keep _ h.subsRef
+    · rw [ex.2.1, ex.2.2.2.2]; exact keep _ h.bindsRef
+
+theorem inv_dropEntity (F : Facts) (hF : F.ok = true) (s : St) (h : Inv s) (k : Nat) (ent : List Nat) : Inv (dropEntity F s k ent).1 := by
+  cases hk : forSki s k with
+  | none => unfold dropEntity; simp only [hk]; exact h
+  | some c =>
+    by_cases hcond : (ent == [0] || !c.ents.contains ent) = true
+    · unfold dropEntity; simp only [hk, hcond, if_true]; exact h
+    · have hcond' : (ent == [0] || !c.ents.contains ent) = false := by simpa using hcond
+      simp only [Bool.or_eq_false_iff, Bool.not_eq_false'] at hcond'
+      have h0 : ent ≠ [0] := by simpa using hcond'.1
+      have ex := dropEntity_exact F hF s h k c hk ent h0 hcond'.2
+      have hconns : (dropEntity F s k ent).1.conns = s.conns.map (dropConnEnt k ent) := by
+        unfold dropEntity
+        simp only [hk, hcond'.1, hcond'.2, Bool.not_true, Bool.or_self, Bool.false_eq_true, if_false]
+      have keep : ∀ es : List Entry, (∀ e ∈ es, ∃ c ∈ s.conns, c.ski = e.cl.ski ∧ c.dev = e.cl.dev ∧ e.cl.ent ∈ c.ents) →
+          ∀ e ∈ es.filter (fun e => !(e.cl.ski == k && e.cl.ent == ent)),
+            ∃ c ∈ s.conns.map (dropConnEnt k ent), c.ski = e.cl.ski ∧ c.dev = e.cl.dev ∧ e.cl.ent ∈ c.ents := by
+        intro es href e he
+        rw [List.mem_filter] at he
+        obtain ⟨c', hc', hs, hd, hin⟩ := href e he.1
+        refine ⟨dropConnEnt k ent c', List.mem_map.2 ⟨c', hc', rfl⟩, by rw [dropConnEnt_ski]; exact hs, by rw [dropConnEnt_dev]; exact hd, ?_⟩
+        unfold dropConnEnt
+        by_cases hck : (c'.ski == k) = true
+        · simp only [hck, if_true, List.mem_filter]
+          refine ⟨hin, ?_⟩
+          have hek : (e.cl.ski == k) = true := by rw [← hs]; exact hck
+          have := he.2
+          simp only [hek, Bool.true_and, Bool.not_eq_true', beq_eq_false_iff_ne] at this
+          simpa using this
+        · simp only [hck, Bool.false_eq_true, if_false]; exact hin
+      refine ⟨?_, ?_, ?_, ?_⟩
+      · rw [hconns]; intro a ha b hb hab
+        obtain ⟨a', ha', rfl⟩ := List.mem_map.1 ha
+        obtain ⟨b', hb', rfl⟩ := List.mem_map.1 hb
+        rw [dropConnEnt_ski, dropConnEnt_ski] at hab
+        rw [h.isMap a' ha' b' hb' hab]
+      · rw [hconns]; intro a ha b hb hab
+        obtain ⟨a', ha', rfl⟩ := List.mem_map.1 ha
+        obtain ⟨b', hb', rfl⟩ := List.mem_map.1 hb
+        rw [dropConnEnt_dev, dropConnEnt_dev] at hab
+        rw [dropConnEnt_ski, dropConnEnt_ski]
+        exact h.devInj a' ha' b' hb' hab
+      · rw [ex.1, hconns]; exact keep _ h.subsRef
+      · rw [ex.2.1, hconns]; exact keep _ h.bindsRef
+
+theorem inv_step (F : Facts) (hF : F.ok = true) (s : St) (h : Inv s) (op : Op) (hok : okOp s op = true) : Inv (step F s op) := by
+  cases op with
+  | connect c => exact inv_connect s h c hok
+  | entry b id k e cf se sf => exact inv_addEntry s h b id k e cf se sf
+  | book b x => exact inv_addBook s h b x
+  | drop k => exact inv_drop F hF s h k
+  | dropEnt k e => exact inv_dropEntity F hF s h k e
+
+/-- along every history of connections (each announcing a fresh device address), granted requests, client requests,
+    teardowns and entity removals the invariant holds -/
+theorem inv_run (F : Facts) (hF : F.ok = true) : ∀ (ops : List Op) (s : St), Inv s → okRun F s ops = true → Inv (run F s ops) := by
+  intro ops
+  induction ops with
+  | nil => intro s h _; exact h
+  | cons op ops ih =>
+    intro s h hok
+    simp only [okRun, Bool.and_eq_true] at hok
+    exact ih (step F s op) (inv_step F hF s h op hok.1) hok.2
+
+theorem inv_empty : Inv { conns := [] } := by
+  refine ⟨?_, ?_, ?_, ?_⟩ <;> intro a ha <;> simp at ha
+
 end Spine.TdK
